@@ -288,4 +288,37 @@ Proof.
   - simpl in Hst. apply orb_false_iff in Hst as [_ B]. rewrite B. rewrite H. reflexivity.
 Qed.
 
+Lemma colon_white : lc_white cfg c_colon = false.
+Proof.
+  destruct (lc_white cfg c_colon) eqn:E; [|reflexivity]. apply (ok_white cfg Hok) in E. vm_compute in E. discriminate.
+Qed.
+
+(* a keyword: the colon and a word of symbol characters *)
+Lemma step_key : forall k r l, nonempty k = true -> str_forallb (lc_symchar cfg) k = true ->
+  stops (lc_symchar cfg) r -> lexes cfg r l -> lexes cfg (String c_colon (k ++ r)) (TKey k :: l).
+Proof.
+  intros k r l Hne Hall Hst [f H]. exists (S f). cbn [lex_fuel]. rewrite colon_white.
+  change (Ascii.eqb c_colon c_semi) with false. change (Ascii.eqb c_colon c_lp) with false.
+  change (Ascii.eqb c_colon c_rp) with false. change (Ascii.eqb c_colon c_bar) with false.
+  change (Ascii.eqb c_colon c_dq) with false. change (Ascii.eqb c_colon c_colon) with true. cbv iota.
+  rewrite (span_all (lc_symchar cfg) k r Hall Hst). rewrite Hne. rewrite H. reflexivity.
+Qed.
+
+(* a decimal: digits . digits *)
+Lemma step_dec : forall d1 d2 r l, nonempty d1 = true -> str_forallb is_digit d1 = true ->
+  nonempty d2 = true -> str_forallb is_digit d2 = true -> stops is_digit r -> lexes cfg r l ->
+  lexes cfg (d1 ++ String c_dot (d2 ++ r)) (TDec (d1 ++ String c_dot d2) :: l).
+Proof.
+  intros d1 d2 r l Hn1 Ha1 Hn2 Ha2 Hst [f H]. exists (S f).
+  destruct d1 as [|c d1']; [discriminate|]. cbn [append lex_fuel].
+  simpl in Ha1. apply andb_true_iff in Ha1 as [Hc Hr].
+  pose proof (digit_special_free c Hc) as Hsp.
+  destruct (special_free_branches cfg c Hok Hsp) as (W & E1 & E2 & E3 & E4 & E5 & E6 & E7).
+  rewrite W, E1, E2, E3, E4, E5, E6, E7, Hc.
+  change (String c (d1' ++ String c_dot (d2 ++ r))) with (String c d1' ++ String c_dot (d2 ++ r)). unfold scan_number.
+  rewrite (span_all is_digit (String c d1') (String c_dot (d2 ++ r))); [|simpl; rewrite Hc, Hr; reflexivity|reflexivity].
+  change (Ascii.eqb c_dot c_dot) with true. cbv iota.
+  rewrite (span_all is_digit d2 r Ha2 Hst). rewrite Hn2. rewrite H. reflexivity.
+Qed.
+
 End Steps.
